@@ -180,6 +180,7 @@ Section Discipline.
     length (r_regs (ref_call e c rg g m st)) = 13%nat /\
     (forall i, i <> 7%nat -> nth i (r_regs (ref_call e c rg g m st)) 0 = nth i rg 0).
   Proof.
+    clear H.
     intros L. destruct c; hc_unfold; apply charged_ind; intros Hg; cbv zeta; hc_split;
       (cbn [finish r_regs]; split;
        [ first [ exact L | apply setreg7_len; exact L ]
@@ -247,6 +248,7 @@ Section Discipline.
     (forall a, match ref_dest c rg with Some (o, l) => ~ (o <= a < o + l) | None => True end ->
                m_byte (mem_after m (ref_call e c rg g m st)) a = m_byte m a).
   Proof.
+    clear H.
     unfold mem_after. destruct (r_write (ref_call e c rg g m st)) as [[o d] |] eqn:E; [| split; reflexivity].
     apply ref_write_shape in E as (_ & _ & l & Hd & Hl). rewrite Hd. split; [reflexivity |].
     intros a Ha. apply mwrite_outside. lia.
@@ -297,6 +299,7 @@ Section Discipline.
     exists d, r_write (ref_call e c rg g m st) = Some (o, d) /\ writable m o (blen d) = true /\
               blen d = N.min l (nth 7 (r_regs (ref_call e c rg g m st)) 0 - N.min (ref_off c rg) (nth 7 (r_regs (ref_call e c rg g m st)) 0)).
   Proof.
+    clear H.
     intros L Hd. destruct c; cbn [ref_dest ref_off] in *; try discriminate Hd; injection Hd as <- <-;
       hc_unfold; apply charged_ind; intros Hg; cbv zeta; hc_split; value_tac L.
   Qed.
@@ -424,6 +427,7 @@ Section Discipline.
     In (nth 7 (r_regs (ref_call e c rg g m st)) 0) error_codes ->
     r_ctx (ref_call e c rg g m st) = st.
   Proof.
+    clear H.
     intros L.
     destruct c; hc_unfold; apply charged_ind; intros Hg; cbv zeta; hc_split; cbn [finish r_regs r_ctx]; intros Hin;
       try reflexivity;
@@ -566,6 +570,7 @@ Section CtxFrame.
 
   Lemma ref_ctx_frame_holds c rg g m st : ref_ctx_frame c st (r_ctx (ref_call e c rg g m st)).
   Proof.
+    clear H.
     destruct c; unfold ref_ctx_frame; hc_unfold; apply charged_ind; intros Hg; cbv zeta; hc_split;
       cbn [finish r_ctx rc_exports]; try reflexivity; try (left; reflexivity).
     right. eexists. split; [reflexivity |].
